@@ -132,7 +132,16 @@ BigAsString(v) ==
 
 YamlChecks(vs, r) ==
   IF r.s1 # 0 THEN << Failed("yaml.write", 1, <<>>) >>
-  ELSE IF r.s2 # 0 THEN << Failed("yaml.read", 1, <<>>) >>
+  ELSE IF r.s2 # 0 THEN
+       \* a block scalar written with an explicit indentation indicator (|3, >8 ...) under --indent n, n not 1 or 2, is not read back: tagged
+       (IF "ind" \in DOMAIN r /\ r.ind \notin {1, 2} /\ (\E i \in 1..(Len(r.text) - 1) : r.text[i] \in {124, 62} /\ r.text[i + 1] >= 48 /\ r.text[i + 1] <= 57)
+        THEN << [k |-> "yaml.read", i |-> 1, ok |-> FALSE, exp |-> <<>>, dev |-> "indent-block-scalar"] >>
+        \* a block scalar (header | or > at the end of a line) whose first content line starts, after the indentation, with a TAB
+        ELSE IF \E j \in 2..(Len(r.text) - 1) : /\ r.text[j] = 10
+                                                  /\ (\E i \in 1..(j - 1) : r.text[i] \in {124, 62} /\ \A m \in (i + 1)..(j - 1) : r.text[m] \in {43, 45} \/ (r.text[m] >= 48 /\ r.text[m] <= 57))
+                                                  /\ (\E k \in (j + 1)..Len(r.text) : r.text[k] = 9 /\ \A m \in (j + 1)..(k - 1) : r.text[m] = 32)
+        THEN << [k |-> "yaml.read", i |-> 1, ok |-> FALSE, exp |-> <<>>, dev |-> "tab-leading-block-scalar"] >>
+        ELSE << Failed("yaml.read", 1, <<>>) >>)
   ELSE LET d == DecStream(r.back)
            sameLen == d.ok /\ Len(d.vs) = Len(vs)
            exp == FlatF([i \in 1..Len(vs) |-> Enc(Norm(vs[i])) \o <<LF>>], Len(vs))
